@@ -394,6 +394,8 @@ class SymSp:
 
     def __add__(self, other):
         other = _unlazy(other)
+        if type(other).__name__ == 'SymCOO':
+            other = other._shadow()
         if isinstance(other, SymSp):
             return self._binary_sparse(other, +1)
         if _np.isscalar(other) or isinstance(other, SVal):
@@ -417,6 +419,8 @@ class SymSp:
 
     def __sub__(self, other):
         other = _unlazy(other)
+        if type(other).__name__ == 'SymCOO':
+            other = other._shadow()
         if isinstance(other, SymSp):
             return self._binary_sparse(other, -1)
         if _np.isscalar(other) or isinstance(other, SVal):
